@@ -16,7 +16,7 @@
 //!   <b> = `a` (`::`-prefixed) or `r` (relative); ids count the declared entities in order (fn: function and parameter,
 //!   en: the enum and each value)
 //!   printed names: the name the first generation prints for every ns / gv / fn + parameter / st / en + values / td / lv of
-//!   the descriptor, in order (`-` = not printed); recomputed on replay (`-` as the whole field)
+//!   the descriptor, in order (`-` = not printed); recomputed on replay (`?` as the whole field)
 //! observe : `g1:u0=<e>,u1=<e>,.. g2:u0=<e>,..` — the entity every use refers to in the text of the first generation and
 //!           in the text the compiler emits for that text (`v<id>` global / enum value, `f<id>` function, `t<id>` struct /
 //!           enum, `l<id>` local / parameter), read from the emitted text alone: every declaration carries its id as a
@@ -1519,7 +1519,7 @@ fn capture(nodes: &[Node], scan1: &Scan) -> Option<String> {
 // ------------------------------------------------------------------------------------------------ one case
 
 pub fn run_descriptor(desc: &str, out: &mut Out, hist: &mut Hist) {
-    let bad = |out: &mut Out, why: &str| out.case(&format!("C04.names\t{}\t-", desc), "bad-request", &format!("SKIP:{}", why));
+    let bad = |out: &mut Out, why: &str| out.case(&format!("C04.names\t{}\t?", desc), "bad-request", &format!("SKIP:{}", why));
     let Some(nodes) = parse(desc) else {
         return bad(out, "descriptor does not parse");
     };
@@ -1535,7 +1535,7 @@ pub fn run_descriptor(desc: &str, out: &mut Out, hist: &mut Hist) {
         CompileOutcome::Ok(ps) if ps.len() == 1 => ps[0].text(),
         CompileOutcome::Ok(_) => return bad(out, "not one output"),
         CompileOutcome::Err(e) => {
-            let req = format!("C04.names\t{}\t-", desc);
+            let req = format!("C04.names\t{}\t?", desc);
             if sim.invalid.is_none() {
                 // the simulation expected the front end to take it: compared with the model, which then says what every use finds
                 hist.add("names:source-rejected-unexpectedly");
@@ -1549,7 +1549,7 @@ pub fn run_descriptor(desc: &str, out: &mut Out, hist: &mut Hist) {
         CompileOutcome::Panic(p) => {
             hist.add("names:panic-first-generation");
             let why = sim.panics.clone().map(|w| format!(" [names: {}]", w)).unwrap_or_default();
-            out.case(&format!("C04.names\t{}\t-", desc), "g1:panic", &format!("FAIL:panic {}{}", p, why));
+            out.case(&format!("C04.names\t{}\t?", desc), "g1:panic", &format!("FAIL:panic {}{}", p, why));
             return;
         }
     };
@@ -1557,7 +1557,7 @@ pub fn run_descriptor(desc: &str, out: &mut Out, hist: &mut Hist) {
         hist.add("names:accepted-unexpectedly");
     }
     let scan1 = scan(&text1);
-    let printed = printed_names(&nodes, &scan1).unwrap_or_else(|| "-".to_string());
+    let printed = printed_names(&nodes, &scan1).unwrap_or_else(|| "?".to_string());
     let req = format!("C04.names\t{}\t{}", desc, printed);
     let g1 = if scan1.problems.is_empty() { show_uses(&scan1, nuses) } else { format!("unreadable:{}", one_line(&scan1.problems[0])) };
     hist.add("names:accepted");
